@@ -8,6 +8,7 @@ import (
 	"io"
 	"strings"
 	"sync"
+	"sync/atomic"
 	"time"
 
 	netty "github.com/go-netty/go-netty"
@@ -304,6 +305,8 @@ func (c *collector) snapshot() []event {
 
 const watchdog = 20 * time.Second
 
+var trialSeq, wrappedTrials int64
+
 type trial struct {
 	rig *mon.Rig
 	col *collector
@@ -320,7 +323,14 @@ func newTrial(fc *frameCfg, fm fmtCfg, limit int) *trial {
 		hs = append(hs, &spinProbe{col: col, tr: tr})
 	}
 	hs = append(hs, fm.handler(), col)
-	rig := mon.NewRig(mon.RigOpts{Mode: mon.Sync, Handlers: hs, NoPark: true, NoHooks: true, Tr: tr})
+	ro := mon.RigOpts{Mode: mon.Sync, Handlers: hs, NoPark: true, NoHooks: true, Tr: tr}
+	if n := atomic.AddInt64(&trialSeq, 1); n%4 == 0 && fc.handler != nil {
+		// every fourth trial reads through the library's read-buffering transport wrappers (tcp ReadBufferSize > 0)
+		wv := [][2]int{{64, 0}, {64, 64}, {16, 0}, {4096, 4096}}[(n/4)%4]
+		ro.Wrap = &wv
+		atomic.AddInt64(&wrappedTrials, 1)
+	}
+	rig := mon.NewRig(ro)
 	return &trial{rig: rig, col: col}
 }
 
